@@ -310,22 +310,30 @@ func r19_3(c *RC) {
 	// checkQuota: policy of this session, group of the same user, comparison present
 	up := p.Field(protoPkg, "Session", "userPolicy")
 	pol, grp, cmp := false, false, false
-	instrs(cq, func(_ *ssa.BasicBlock, _ int, in ssa.Instruction) {
-		switch x := in.(type) {
-		case *ssa.Call:
-			if calleeName(x) == "Load" && sameField(fieldOrigin(x.Common().Args[0]), up) {
-				pol = true
-			}
-			if calleeID(x) == "fmt.Sprintf" {
-				for _, l := range Leaves(x.Common().Args[1], nil) {
-					if a, ok := l.(*ssa.Alloc); ok {
-						for _, r := range *a.Referrers() {
-							if ia, ok := r.(*ssa.IndexAddr); ok {
-								for _, u := range *ia.Referrers() {
-									if s, ok := u.(*ssa.Store); ok {
-										for _, l2 := range Leaves(s.Val, nil) {
-											if prm, ok := l2.(*ssa.Parameter); ok && prm.Name() == "userName" {
-												grp = true
+	// (the metric lookup may live in a helper that receives the user name)
+	for _, qf := range withHelpers(p, cq, 2) {
+		qf := qf
+		instrs(qf, func(_ *ssa.BasicBlock, _ int, in ssa.Instruction) {
+			switch x := in.(type) {
+			case *ssa.Call:
+				if calleeName(x) == "Load" && sameField(fieldOrigin(x.Common().Args[0]), up) {
+					pol = true
+				}
+				if calleeID(x) == "fmt.Sprintf" {
+					for _, l := range Leaves(x.Common().Args[1], nil) {
+						if a, ok := l.(*ssa.Alloc); ok {
+							for _, r := range *a.Referrers() {
+								if ia, ok := r.(*ssa.IndexAddr); ok {
+									for _, u := range *ia.Referrers() {
+										if s, ok := u.(*ssa.Store); ok {
+											liftDepth := 1 // one level: helper parameter -> checkQuota's argument
+											if qf == cq {
+												liftDepth = 2 // none
+											}
+											for _, l2 := range LeavesIP(p, qf, s.Val, liftDepth) {
+												if prm, ok := l2.(*ssa.Parameter); ok && prm.Name() == "userName" && prm.Parent() == cq {
+													grp = true
+												}
 											}
 										}
 									}
@@ -334,34 +342,34 @@ func r19_3(c *RC) {
 						}
 					}
 				}
-			}
-		case *ssa.BinOp:
-			// used megabytes > allowance, in any spelling (allowance < used,
-			// through a local): one side is bytes / 1048576, the other derives
-			// from quota.Megabytes()
-			isUsedMB := func(v ssa.Value) bool {
-				for _, l := range Leaves(v, nil) {
-					if q, ok := l.(*ssa.BinOp); ok && q.Op == token.QUO {
-						if k, ok := constInt(q.Y); ok && k == 1048576 {
+			case *ssa.BinOp:
+				// used megabytes > allowance, in any spelling (allowance < used,
+				// through a local): one side is bytes / 1048576, the other derives
+				// from quota.Megabytes()
+				isUsedMB := func(v ssa.Value) bool {
+					for _, l := range Leaves(v, nil) {
+						if q, ok := l.(*ssa.BinOp); ok && q.Op == token.QUO {
+							if k, ok := constInt(q.Y); ok && k == 1048576 {
+								return true
+							}
+						}
+					}
+					return false
+				}
+				isAllowance := func(v ssa.Value) bool {
+					for _, l := range Leaves(v, nil) {
+						if cl, ok := l.(*ssa.Call); ok && calleeName(cl) == "Megabytes" {
 							return true
 						}
 					}
+					return false
 				}
-				return false
-			}
-			isAllowance := func(v ssa.Value) bool {
-				for _, l := range Leaves(v, nil) {
-					if cl, ok := l.(*ssa.Call); ok && calleeName(cl) == "Megabytes" {
-						return true
-					}
+				if cmpForm(x, token.GTR, isUsedMB, isAllowance) {
+					cmp = true
 				}
-				return false
 			}
-			if cmpForm(x, token.GTR, isUsedMB, isAllowance) {
-				cmp = true
-			}
-		}
-	})
+		})
+	}
 	if pol && grp && cmp {
 		c.OKH("check-quota", cq.Pos(), "reads s.userPolicy, the metric group of the same userName, and compares used megabytes with the allowance")
 	} else {
@@ -376,29 +384,44 @@ func r19_4(c *RC) {
 		c.Anchor("metrics.Counter.doRollUp")
 		return
 	}
-	// loop header: the block with the range condition; body = blocks between.
+	// the loop over c.history, in either form (range, or index with i++):
+	// h is the element loaded as history[i] with i the loop's induction
+	// variable; the header is the block of that variable's phi, the body
+	// starts at the block that loads h.
 	var header, body *ssa.BasicBlock
-	for _, b := range fn.Blocks {
-		if strings.HasPrefix(b.Comment, "rangeindex.loop") {
-			header = b
-			body = b.Succs[0]
-		}
-	}
-	if header == nil {
-		c.Undecided("linear-use", fn.Pos(), "cannot find the range loop over c.history")
-		return
-	}
-	// h = the element loaded at the top of the body
 	var h ssa.Value
-	for _, in := range body.Instrs {
-		if u, ok := in.(*ssa.UnOp); ok && u.Op == token.MUL {
-			if _, ok := u.X.(*ssa.IndexAddr); ok {
-				h = u
+	instrs(fn, func(b *ssa.BasicBlock, _ int, in ssa.Instruction) {
+		u, ok := in.(*ssa.UnOp)
+		if !ok || u.Op != token.MUL || h != nil {
+			return
+		}
+		ia, ok := u.X.(*ssa.IndexAddr)
+		if !ok {
+			return
+		}
+		if f := fieldOrigin(ia.X); f == nil || f.Name() != "history" {
+			return
+		}
+		var phi *ssa.Phi
+		switch x := ia.Index.(type) {
+		case *ssa.Phi:
+			phi = x
+		case *ssa.BinOp:
+			if pp, ok := x.X.(*ssa.Phi); ok && x.Op == token.ADD {
+				phi = pp
 			}
 		}
+		if phi == nil {
+			return
+		}
+		header, body, h = phi.Block(), b, u
+	})
+	if header == nil {
+		c.Undecided("linear-use", fn.Pos(), "cannot find the loop over c.history")
+		return
 	}
-	if h == nil {
-		c.Undecided("linear-use", fn.Pos(), "cannot identify the loop element")
+	if _, isIf := header.Instrs[len(header.Instrs)-1].(*ssa.If); !isIf || len(header.Succs) != 2 {
+		c.Undecided("linear-use", fn.Pos(), "the loop over c.history has no recognisable header")
 		return
 	}
 	uses := func(in ssa.Instruction) int {
